@@ -73,6 +73,21 @@ def lemma_instances(libm):
             out.append(z3.Implies(z3.And(x > 0, g < l), e < x))
             out.append(z3.Implies(z3.And(x > 0, g > l), e > x))
             out.append(z3.Implies(z3.And(x > 0, g == l), e == x))
+    # additivity of the exponential on the terms of the path: exp(a) exp(b) = exp(c) when a + b = c, and through a logarithm:
+    # exp(a) exp(b) = x when a + b = log(x);  exp(a) exp(b)^2 = x when a + 2b = log(x)
+    exps = list({tuple(a.get_id() for a in args): (args[0], r) for args, r in by.get('exp', [])}.values())
+    if len(exps) <= 10 and os.environ.get("VERIF_EXP_ADDITIVE"):
+        for i, (a, ea) in enumerate(exps):
+            for j, (b, eb) in enumerate(exps):
+                if j < i:
+                    continue
+                for (c, ec) in exps:
+                    out.append(z3.Implies(a + b == c, ea * eb == ec))
+                for (x,), l in by.get('log', []):
+                    out.append(z3.Implies(z3.And(x > 0, a + b == l), ea * eb == x))
+            for (b, eb) in exps:
+                for (x,), l in by.get('log', []):
+                    out.append(z3.Implies(z3.And(x > 0, a + 2 * b == l), ea * eb * eb == x))
     for args, r in by.get('pow', []):
         x, y = args
         out += [z3.Implies(x > 0, r > 0), z3.Implies(y == 0, r == one), z3.Implies(y == 1, r == x),
